@@ -95,7 +95,10 @@ pub fn replay(lines: impl Iterator<Item = String>) {
 fn noise(v: &Value, tl: &mut Tally) {
     tl.evaluations += 1;
     let t = &v["t"];
-    let eps = Rational::from_unsigned(v["en"].as_u64().unwrap(), v["ed"].as_u64().unwrap()).unwrap();
+    // budgets beyond 64 bits come as decimal strings
+    let big = v["big"]["en_s"].as_str().map(|x| !x.is_empty()).unwrap_or(false);
+    let eps = if big { Rational::from_unsigned(v["big"]["en_s"].as_str().unwrap().parse::<u128>().unwrap(), v["big"]["ed_s"].as_str().unwrap().parse::<u128>().unwrap()).unwrap() }
+              else { Rational::from_unsigned(v["en"].as_u64().unwrap(), v["ed"].as_u64().unwrap()).unwrap() };
     let strategy = PureDpDiscreteLaplace::from_budget(PureDpBudget::new(eps).unwrap());
     let agg: Vec<i64> = v["agg"].as_array().unwrap().iter().map(|x| x.as_i64().unwrap()).collect();
     let mut symbols: Vec<u64> = Vec::new();
@@ -124,7 +127,10 @@ fn noise(v: &Value, tl: &mut Tally) {
     let r64 = guarded(|| match label.as_str() {
         "SumVec" => { let ty = SumVec::<Field64, ParallelSum<Field64, Mul>>::new((1u64 << u("bits")) - 1, u("len"), 2).unwrap(); run::<Field64>(&agg, &expect, &symbols, |a, r| dp_verif::sumvec(&ty, &strategy, a, r).is_ok()) }
         "Histogram" => { let ty = Histogram::<Field64, ParallelSum<Field64, Mul>>::new(u("len"), 2).unwrap(); run::<Field64>(&agg, &expect, &symbols, |a, r| dp_verif::histogram(&ty, &strategy, a, r).is_ok()) }
-        _ => { let ty = L1BoundSum::<Field64, ParallelSum<Field64, Mul>>::new(u("max") as u64, u("len"), 2).unwrap(); run::<Field64>(&agg, &expect, &symbols, |a, r| dp_verif::l1boundsum(&ty, &strategy, a, r).is_ok()) }
+        _ => {
+            let max: u64 = match t["max_s"].as_str() { Some(m) => match m.parse() { Ok(x) => x, Err(_) => return Ok(()) }, None => u("max") as u64 };
+            if t["field"].as_str() == Some("Field128") { return Ok(()); }
+            let ty = L1BoundSum::<Field64, ParallelSum<Field64, Mul>>::new(max, u("len"), 2).unwrap(); run::<Field64>(&agg, &expect, &symbols, |a, r| dp_verif::l1boundsum(&ty, &strategy, a, r).is_ok()) }
     });
     if r64 != Ok(Ok(())) {
         tl.mismatch(&format!("dp/noise/{label}/Field64"), json!({"case": v, "got": format!("{r64:?}")}));
@@ -136,7 +142,11 @@ fn noise(v: &Value, tl: &mut Tally) {
         let ok = match label.as_str() {
             "SumVec" => dp_verif::sumvec(&SumVec::<Field128, ParallelSum<Field128, Mul>>::new((1u128 << u("bits")) - 1, u("len"), 2).unwrap(), &strategy, &mut a, &mut tape).is_ok(),
             "Histogram" => dp_verif::histogram(&Histogram::<Field128, ParallelSum<Field128, Mul>>::new(u("len"), 2).unwrap(), &strategy, &mut a, &mut tape).is_ok(),
-            _ => dp_verif::l1boundsum(&L1BoundSum::<Field128, ParallelSum<Field128, Mul>>::new(u("max") as u128, u("len"), 2).unwrap(), &strategy, &mut a, &mut tape).is_ok(),
+            _ => {
+                if t["field"].as_str() == Some("Field64") { return Ok(()); }
+                let max: u128 = match t["max_s"].as_str() { Some(m) => m.parse().unwrap(), None => u("max") as u128 };
+                dp_verif::l1boundsum(&L1BoundSum::<Field128, ParallelSum<Field128, Mul>>::new(max, u("len"), 2).unwrap(), &strategy, &mut a, &mut tape).is_ok()
+            }
         };
         if !ok { return Err("error".into()); }
         if !tape.consumed_all() { return Err("tape not consumed exactly".into()); }
